@@ -2,6 +2,7 @@
 From Coq Require Import Floats.
 From mathcomp Require Import all_ssreflect all_algebra.
 From LS Require Import NumOps RcfOps F64Ops Kernels Pca Lda LdaSpec LdaSpec2.
+From LS Require LdaData.
 Set Implicit Arguments. Unset Strict Implicit. Unset Printing Implicit Defensive.
 Import Order.TTheory GRing.Theory Num.Theory.
 Local Open Scope ring_scope.
@@ -36,6 +37,22 @@ Theorem C08_affine_invariance_from_data (A : 'M[R]_m) (c : 'cV[R]_m) (x : I -> '
 Proof. exact: lda_affine_invariance. Qed.
 End FromData.
 
+(* the same chain for the scatter lda.c actually forms (Exec/Lda.v: Sw = (1/n) sum_i (x_i - grand mean)(x_i - grand mean)', the
+   classes enter through their means only): objects as the rows of X, classes k and j given by indicator (weight) vectors *)
+Section FromDataAsCoded.
+Variable R : rcfType.
+Variables n m : nat.
+Theorem C08_grand_mean_scatter_equivariant (A : 'M[R]_m) (c : 'cV[R]_m) (X : 'M[R]_(n, m)) : (0 < n)%N ->
+  LdaData.scatter (LdaData.amap A c X) = A *m LdaData.scatter X *m A^T.
+Proof. by move=> n0; apply: LdaData.scatter_amap. Qed.
+Theorem C08_affine_invariance_from_data_as_coded (A : 'M[R]_m) (c : 'cV[R]_m) (X : 'M[R]_(n, m)) (wk wj : 'cV[R]_n) (x : 'cV[R]_m) :
+  (0 < n)%N -> A \in unitmx -> LdaData.scatter X \in unitmx -> LdaData.wsum wk != 0 -> LdaData.wsum wj != 0 ->
+  let X' := LdaData.amap A c X in let x' := A *m x + c in
+  let C := invmx (LdaData.scatter X) in let C' := invmx (LdaData.scatter X') in
+  score C' (LdaData.wmean wk X') x' - score C' (LdaData.wmean wj X') x' = score C (LdaData.wmean wk X) x - score C (LdaData.wmean wj X) x.
+Proof. by move=> n0; apply: LdaData.lda_data_invariance. Qed.
+End FromDataAsCoded.
+
 Section Argmax.
 Variable R : rcfType.
 Local Existing Instance RcfOps.
@@ -63,4 +80,6 @@ Proof. by vm_compute. Qed.
 Print Assumptions C08_affine_invariance.
 Print Assumptions C08_scatter_equivariant.
 Print Assumptions C08_affine_invariance_from_data.
+Print Assumptions C08_grand_mean_scatter_equivariant.
+Print Assumptions C08_affine_invariance_from_data_as_coded.
 Print Assumptions C08_prediction_is_argmax.
